@@ -41,6 +41,8 @@ enum Op {
     CloseHeld(String),
     SetXattr(String, Vec<u8>),
     RemoveXattr(String),
+    /// open read-write, FALLOCATE (mode 0 or FALLOC_FL_KEEP_SIZE) at (offset, length), release
+    Fallocate(String, bool, u64, u64),
 }
 
 fn split(path: &str) -> (String, String) {
@@ -230,6 +232,20 @@ fn apply(o: &mut Ovl, op: &Op, held: &mut Held) -> Result<(), i32> {
             let (ino, _) = resolve(c, p)?;
             c.removexattr(ino, b"user.c10")
         }
+        Op::Fallocate(p, keep, off, len) => {
+            let (ino, m) = resolve(c, p)?;
+            if isdir(m) {
+                return Err(libc::EISDIR);
+            }
+            if m & libc::S_IFMT != libc::S_IFREG {
+                return Err(libc::EINVAL);
+            }
+            let (fh, _) = c.open(ino, libc::O_RDWR as u32, false)?;
+            let mode = if *keep { libc::FALLOC_FL_KEEP_SIZE as u32 } else { 0 };
+            let r = c.fallocate(ino, fh, mode, *off, *len);
+            let _ = c.release(ino, fh, 0, false);
+            r
+        }
     }
 }
 
@@ -397,6 +413,26 @@ fn apply_model(m: &mut BTreeMap<String, MNode>, op: &Op) -> Result<(), i32> {
                 }
             }
         }
+        Op::Fallocate(p, keep, off, len) => {
+            let (d, leaf) = parent_of(m, p)?;
+            let dir = model_dir_mut(m, &d).ok_or(libc::ENOENT)?;
+            match dir.get_mut(&leaf) {
+                None => Err(libc::ENOENT),
+                Some(MNode::Dir { .. }) => Err(libc::EISDIR),
+                Some(MNode::Link { .. }) => Err(libc::EINVAL),
+                Some(MNode::File { data, lid, .. }) => {
+                    let end = (*off + *len) as usize;
+                    if !*keep && end > data.len() {
+                        data.resize(end, 0);
+                    }
+                    let (l, newdata) = (*lid, data.clone());
+                    if l != 0 {
+                        for_each_link(m, l, &mut |d, _| *d = newdata.clone());
+                    }
+                    Ok(())
+                }
+            }
+        }
         Op::SetXattr(p, _) | Op::RemoveXattr(p) => {
             parent_of(m, p)?;
             match model_get(m, p) {
@@ -458,6 +494,8 @@ fn gen_op(r: &mut Rng, m: &BTreeMap<String, MNode>, held: &[String]) -> Op {
         12 => {
             if r.chance(1, 3) {
                 Op::OpenTrunc(filep(r), *r.pick(&[libc::O_RDONLY, libc::O_WRONLY, libc::O_RDWR]))
+            } else if r.chance(1, 3) {
+                Op::Fallocate(filep(r), r.chance(1, 3), r.below(50), r.range(1, 40))
             } else {
                 Op::Truncate(filep(r), r.below(60))
             }
@@ -586,7 +624,7 @@ pub fn run(args: &Args, rep: &mut Report) {
             let held_paths: Vec<String> = held.keys().cloned().collect();
             let op = gen_op(&mut r, &model, &held_paths);
             let op_path = match &op {
-                Op::Write(p, ..) | Op::Chmod(p, _) | Op::HeldChmod(p, _) | Op::Truncate(p, _) | Op::OpenTrunc(p, _) | Op::SetXattr(p, _) | Op::Link(p, _) => Some(p.clone()),
+                Op::Write(p, ..) | Op::Chmod(p, _) | Op::HeldChmod(p, _) | Op::Truncate(p, _) | Op::OpenTrunc(p, _) | Op::SetXattr(p, _) | Op::Link(p, _) | Op::Fallocate(p, ..) => Some(p.clone()),
                 _ => None,
             };
             // the object a copy-up would start from
@@ -718,6 +756,12 @@ pub fn run(args: &Args, rep: &mut Report) {
                                 }
                                 Op::Truncate(_, sz) => want.resize(*sz as usize, 0),
                                 Op::OpenTrunc(..) => want.clear(),
+                                Op::Fallocate(_, keep, off, len) => {
+                                    let end = (*off + *len) as usize;
+                                    if !*keep && want.len() < end {
+                                        want.resize(end, 0);
+                                    }
+                                }
                                 _ => {}
                             }
                             if fs::read(&up).unwrap_or_default() != want {
